@@ -26,7 +26,7 @@ def _cmds_for(scn, by_sid, tier):
                     cmd["hints"] = h
                 if h == "alt":
                     cmd["shape"] = scn["v"]
-                out.append((cmd, {"must": "ok", "value": codec.expected_for(G, scn["v"], h), "consumed": len(b)},
+                out.append((cmd, {"must": "ok", "value": (scn["anyv"] if h == "any" else scn["v"]), "consumed": len(b)},
                             kind if h == "default" else f"{kind}/{h}"))
     for m in scn["mal"]:
         for rd in rds[:2]:
